@@ -15,17 +15,25 @@ class DefNet:
     def __init__(self, name):
         self.name = name
         self.pins = []
+        self.routed = []
+        self.fixed = []
+        self.cover = []
+        self.noshield = []
+
+    @property
+    def _all_wires(self):
+        return self.routed + self.fixed + self.cover + self.noshield
 
     @property
     def wires(self):
         ww = defaultdict(list)
-        [ww[dw.layer].append((int(dw.width), dw.wire_points)) for dw in self.routed if len(dw.wire_points) > 0]
+        [ww[dw.layer].append((int(dw.width) if dw.width is not None else None, dw.wire_points)) for dw in self._all_wires if len(dw.wire_points) > 0]
         return ww
 
     @property
     def vias(self):
         vv = defaultdict(list)
-        [vv[vtype].extend(locs) for dw in self.routed for vtype, locs in dw.vias.items()]
+        [vv[vtype].extend(locs) for dw in self._all_wires for vtype, locs in dw.vias.items()]
         return vv
 
 
